@@ -413,11 +413,14 @@ def runtime_alias_stream(ck, rng, n_regs, oracle, tag):
                 A.convert(F(1), rng.choice(sp), rng.choice(sp))
             except Exception:
                 pass
-        for l in alias_lines:
-            A.define(l)
-        rp0 = {"definitions": lines, "asked_before_the_alias": warmed, "then_defined": alias_lines}
+        # the lines are given to define() one at a time, in random order, and the spellings derived from a line's
+        # new names are asked right after that line (a later definition may reset memos and hide a stale entry)
+        order = list(alias_lines)
+        rng.shuffle(order)
+        rp0 = {"definitions": lines, "asked_before_the_alias": warmed, "then_defined": order}
         cases, desc = [], []
-        for c in derived:
+
+        def compare(c, upto):
             tgt = rng.choice([nm for nm, al in added if al in c] + [rng.choice(sp)])
             res = []
             for reg in (A, B):
@@ -429,12 +432,24 @@ def runtime_alias_stream(ck, rng, n_regs, oracle, tag):
                     res.append("UndefinedUnitError")
             x, y = res
             oracle(x == y and type(x) is type(y), f"runtime-alias:{tag}:factor",
-                   f"after `{'; '.join(alias_lines)}` at run time: 3 {c} -> {tgt} = {x}; a registry that read the same lines from its file gives {y}", dict(rp0, a=c, b=tgt))
+                   f"after `{'; '.join(upto)}` at run time: 3 {c} -> {tgt} = {x}; a registry that read the same lines from its file gives {y}", dict(rp0, then_defined=list(upto), a=c, b=tgt))
             if not isinstance(x, str):
                 cases.append(f"RFactor {coq_uc({c: F(1)})} {coq_uc({tgt: F(1)})} {outcome_of_number(F(x) / 3)}"); desc.append({"factor_after_runtime_alias": [c, tgt]})
             elif x == "DimensionalityError":
                 cases.append(f"RFactor {coq_uc({c: F(1)})} {coq_uc({tgt: F(1)})} ODimErr"); desc.append({"factor_after_runtime_alias": [c, tgt]})
             ck.case(key=("rtalias", tag, gi, c, tgt))
+
+        done = []
+        for l in order:
+            A.define(l)
+            done.append(l)
+            parts = [x.strip() for x in l.replace("@alias ", "").split(" = ")]
+            new_names = [parts[-1]] if l.startswith("@alias") else [parts[0]] + parts[2:]
+            for c in derived:
+                if any(c == p_ + n + pl for n in new_names for p_ in pre for pl in ("", "s")):
+                    compare(c, done)
+        for c in rng.sample(derived, min(len(derived), 12)):     # and once more when everything is defined
+            compare(c, done)
         bad = ck.coq_mismatches(f"rtalias{tag}{gi}", gen_header(raw_b), cases, "ok")
         total += len(cases)
         if bad is None:
